@@ -266,6 +266,18 @@ func parseExpr(in []byte) (Q, int, error) {
 		if subQ == nil {
 			return nil, 0, fmt.Errorf("query: '-' operator needs an argument")
 		}
+		// type: and case: are not atoms but modifiers of the enclosing group;
+		// at this point they are placeholders (a Type without child, a caseQ)
+		// that only parseExprList knows how to lift. Wrapped in a Not they
+		// would survive into the result and crash later stages.
+		switch s := subQ.(type) {
+		case *Type:
+			if s.Child == nil {
+				return nil, 0, fmt.Errorf("query: '-' cannot be applied to type:")
+			}
+		case *caseQ:
+			return nil, 0, fmt.Errorf("query: '-' cannot be applied to case:")
+		}
 		b = b[n:]
 		expr = &Not{subQ}
 
